@@ -1238,6 +1238,15 @@ def dzn_elements_by_interpretation(ctx):
                     out['C03.lookup'].append(f'{label}: port {nm} is not paired with the interface its type names')
                 if p.fields.get('multiclient') is not None:
                     out['C13.rejects'].append(f'{label}: port {nm} gets a multi-client fixture although none is configured')
+            # a configuration by names only: the injected port c is named nowhere - it is not exposed and needs no semantics
+            cfg3 = w.config(fct, w.sem('NONE', {'a', 'd'}), w.sem({'b'}, {'e'}))
+            res3, exc3 = w.run(cfg3, fct, comp)
+            if exc3 is not None:
+                out['C03.lookup'].append(f'{label}, every exposed port configured by name (the injected port c by none): refused with '
+                                         f'{exc3.split(".")[-1]} - a semantics is demanded for a port that is not exposed')
+            elif isinstance(res3, Obj) and (names_of(res3.fields.get('provides_ports', [])) != want_p or
+                                            names_of(res3.fields.get('requires_ports', [])) != want_r):
+                out['C03.injected'].append(f'{label}, configured by name: exposed ports differ from the wildcard configuration')
             # a port the configuration leaves without semantics
             cfg2 = w.config(fct, w.sem('NONE', 'ALL'), w.sem({'b'}, 'NONE'))
             _res, exc = w.run(cfg2, fct, comp)
@@ -1309,6 +1318,15 @@ def dzn_elements_by_interpretation(ctx):
             if not is_a(exc, want):
                 out[rule].append(f'a multi-client configuration that {label} ' +
                                  ('is accepted' if exc is None else f'fails with {exc.split(".")[-1]}') + f' - {want.name} expected')
+        # two enums of the replied name on the scope chain of the interface (My.IApi.Result and My.Result): ambiguous, refused
+        w, fct, comp, ev = world_b()
+        outer = w.mk(A['Enum'], fqn=w.ids('My', 'Result'), parent_ns=w.my, name=w.sn('Result'), fields=w.mk(A['Fields'], elements=['Ok', 'Other']))
+        fct.fields['enums'] = [outer] + list(fct.fields['enums'])
+        _res, exc = w.run(w.config(fct, w.sem('NONE', 'ALL'), w.sem('NONE', 'ALL'), mc_cfg(w)), fct, comp)
+        if not is_a(exc, mce):
+            out['C04.validate'].append('a claim event whose reply type name denotes two enums on the scope chain (My.IApi.Result and My.Result) ' +
+                                       ('is accepted - one of them is picked silently' if exc is None else f'fails with {exc.split(".")[-1]}') +
+                                       ' - MultiClientCfgError expected')
         w, fct, comp, ev = world_b()
         _res, exc = w.run(w.config(fct, w.sem('ALL', 'NONE'), w.sem('NONE', 'ALL'), mc_cfg(w)), fct, comp)
         if not is_a(exc, mce):
